@@ -533,3 +533,39 @@ class C18(core.Property):
 
 
 PROPERTY = C18
+
+
+# ---------------------------------------------------------------------------------------------
+# Second tie for the pure core (appended; harness/gen_ast.py, coq/Base/PyMini.v, Proofs/AstUrisEquiv.v):
+# the SOURCE TEXT of _normalize_win_path, to_fs_path and uri_scheme is translated on every run by a
+# fail-closed AST translator into a deep embedding, and the kernel re-checks that the translation computes
+# exactly Model/Uris.v (POSIX branch; to_fs_path / uri_scheme given what pygls.uris.urlparse returns, which
+# wraps urllib and stays an oracle).  Imported late ("Module::theorem") so that a broken translator tie
+# does not hide the other obligations.
+import sys as _sys
+_sys.path.insert(0, os.path.dirname(os.path.abspath(__file__)))
+import gen_c18 as _gen_c18
+
+_AST_MOD = "Proofs.AstUrisEquiv"
+# ast_uris_equiv = ast_normalize_win_path_equiv /\ ast_to_fs_path_equiv /\ ast_uri_scheme_equiv
+C18.obligations = list(C18.obligations) + [_AST_MOD + "::" + n for n in ("ast_uris_equiv", "ast_uris_example")]
+C18.coq_targets = list(C18.coq_targets) + ["Proofs/AstUrisEquiv.vo"]
+C18.trusted_base = list(C18.trusted_base) + [
+    "translator tie: harness/gen_ast.py (Python ast -> PyMini, fail-closed) and the PyMini semantics "
+    "coq/Base/PyMini.v (hand-written meaning of the Python subset: slicing, str.find/startswith/lower, "
+    "the drive-letter regex)"]
+_prev_regenerate = getattr(C18, "regenerate", None)
+
+
+def _regenerate(self, chk):
+    try:
+        if _prev_regenerate is not None:
+            _prev_regenerate(self, chk)
+    finally:
+        core.coq_make(["Props/C18.vo", "Extract/ExtractC18.vo"])     # the differential side first
+        with core._Lock("coq"):                                      # coq/Gen is shared by concurrent checks
+            _gen_c18.main()
+            core._coq_make(["Proofs/AstUrisEquiv.vo"])
+
+
+C18.regenerate = _regenerate
